@@ -52,6 +52,18 @@ def user_class(g, rng, cov, base):
     return _SUBCLASSES[key]
 
 
+def label_class(g, rng, cov):
+    """gtirb.Edge.Label, or -- one time in four -- a user subclass of it whose instances test false (it defines __bool__ and nothing
+    else: equality and hash stay the tuple's): a label is a label whatever bool(label) says"""
+    if rng.random() < 0.75:
+        return g.Edge.Label
+    cov.hit("user-subclass:falsy-EdgeLabel")
+    key = (id(g), "EdgeLabel")
+    if key not in _SUBCLASSES:
+        _SUBCLASSES[key] = type("MyEdgeLabel", (g.Edge.Label,), {"__bool__": lambda self: False})
+    return _SUBCLASSES[key]
+
+
 def gen_ir(g, rng, cov, n_modules=None, entry_later=False, with_aux=True):
     """returns (ir, auxinfo) ; auxinfo: list of (container, key, type tree, value)"""
     uuids = set()
@@ -244,10 +256,10 @@ def gen_ir(g, rng, cov, n_modules=None, entry_later=False, with_aux=True):
                 lab = None
                 cov.hit("label-none")
             elif r < 0.5:
-                lab = g.Edge.Label(rng.choice(T), False, False)
+                lab = label_class(g, rng, cov)(rng.choice(T), False, False)
                 cov.hit("label-all-false")
             else:
-                lab = g.Edge.Label(rng.choice(T), rng.random() < 0.5, rng.random() < 0.5)
+                lab = label_class(g, rng, cov)(rng.choice(T), rng.random() < 0.5, rng.random() < 0.5)
             ir.cfg.add(g.Edge(rng.choice(all_cfg), rng.choice(all_cfg), lab))
         # parallel edges: same endpoints, different labels (incl. None next to a label)
         for e in list(ir.cfg):
